@@ -20,3 +20,15 @@ CLAIMS["C14"] = dict(
     note="Trusted: SSA of LazyAOFWriter.run incl. closure resolution; Go channel FIFO semantics. Not covered: the journal/apply vs capture race (needs a gate the code does not have; see DESIGN.md), timing.",
     technique="static analysis: typestate + must-pass-through (drain-dominates-effect) over SSA of the writer goroutine and the snapshot/rewrite functions",
 )
+CLAIMS["C01"] = dict(
+    ref="DESIGN.md §4 C01",
+    text="Decides four structural necessary conditions of 'everything observable is recoverable': every call of a durable-state mutator outside the storage layers is journaled (before, or on every success path after) or committed by a snapshot, and mutators are called only from the journaling layer — interface calls resolved with VTA (JRN-1/JRN-2); every command the writers emit has a replay arm that accepts its arity and option keys, and nil arguments survive the codec (CDC-1..4); every index-scoped replay arm also finds snapshot-restored indexes, VDROP drops them and deletions reach them (CDC-8). Equality of recovered values is NOT decided.",
+    note="Trusted: VTA call graph for interface dispatch; sink table of durable-state mutators (checker/rules_jrn.go) is complete for today's API. Not covered: gob round-trip of the snapshot, ordering inside replay aggregation, arenas on disk.",
+    technique="static analysis: effect/layering analysis over SSA + VTA call graph, writer/reader table agreement",
+)
+CLAIMS["C05"] = dict(
+    ref="DESIGN.md §4 C05",
+    text="Decides that a rejected request is not in the log: in every journaling engine operation, no error originating after a successful journal write can be returned (JRN-3; one obligation per operation and error origin, so a validation that is moved behind the journal write is a new, unlisted violation). Five genuine instances on today's tree are listed in known_findings.json. State equality before/after a rejection is NOT decided.",
+    note="Trusted: SSA error-edge recognition; error origins are the calls/constructed errors whose value can flow to the return after the journal write. Not covered: in-memory partial application (see SIB-5 when built), concurrency between validation and apply.",
+    technique="static analysis: path query 'error return reachable after successful journal write' over SSA, keyed by error origin",
+)
